@@ -214,6 +214,9 @@ var boxLonghandRe = regexp.MustCompile(`^(margin-(top|right|bottom|left)|padding
 var lchPctChromaRe = regexp.MustCompile(`(?i)\blch\(\s*[^\s,)]+\s+[0-9.]+%`)
 var ampInPseudoArgRe = regexp.MustCompile(`:(is|not|where)\([^{}]*&`)
 
+// a nested rule whose whole selector is "&"
+var bareAmpRuleRe = regexp.MustCompile(`(^|[{};])\s*&\s*\{`)
+
 func insetLowered(o glueOpts) bool {
 	if ok, set := o.supported["inset-property"]; set && !ok {
 		return true
@@ -305,6 +308,13 @@ func glueTransformCase(r *Rng, st *Stats, src string, d *dom, o glueOpts, scenar
 				// expanded into the cross product, which gives every branch its own
 				// specificity instead of the maximum that "&" has
 				scenario = "nesting-expansion-without-is-changes-specificity"
+			}
+			if scenario == "" && o.minifySyntax && bareAmpRuleRe.MatchString(src) {
+				// known finding C12-R: the minifier moves the declarations of a nested "& { }"
+				// rule into the parent rule; natively "&" has the specificity of :is(parent
+				// list) (its most specific member), the parent's own declarations only that
+				// of the selector that matched
+				scenario = "nested-amp-rule-inlined-loses-list-specificity"
 			}
 			if scenario == "" && nestingLowered(o) && strings.Contains(out, ":is(") {
 				// known limitation: the parent selector list is wrapped in the forgiving
@@ -525,6 +535,9 @@ func glueCorpus(r *Rng, st *Stats) {
 		{"a { :not(&) > b { color: red } } span { :not(&) > b { color: red } }", min, ""},
 		{"div, a { :not(&).c1 { color: red } } .c1 { order: 1 }", glueOpts{loader: api.LoaderCSS, engines: []api.Engine{{Name: api.EngineFirefox, Version: "70"}}, desc: "loader=css target=firefox70"}, "nesting-amp-in-pseudo-arg-without-is"},
 		{"div, #i9 { > a { color: red } } div > a.c1 { color: blue }", glueOpts{loader: api.LoaderCSS, engines: []api.Engine{{Name: api.EngineChrome, Version: "60"}}, desc: "loader=css target=chrome60"}, "nesting-expansion-without-is-changes-specificity"},
+		{"a, #i9 { & { color: red } } a.c1 { color: blue }", min, "nested-amp-rule-inlined-loses-list-specificity"},
+		// must pass: with one parent selector the inlining is exact
+		{"a { & { color: red } } a.c1 { color: blue } #i9 { & { order: 1 } }", min, ""},
 		{"a{margin:1px;margin-left:2px;margin-top:1vw;margin-left:3px} b{padding:1em 9px;padding-left:0;padding-bottom:1vw;padding-left:1em}", min, ""},
 		{"a{border-radius:1px;border-top-left-radius:2px;border-top-right-radius:1vw;border-top-left-radius:3px}", min, ""},
 		{"a{bottom:3px;inset:2vw 1em 10% 0px;bottom:1vw}", glueOpts{loader: api.LoaderCSS, engines: []api.Engine{{Name: api.EngineFirefox, Version: "65"}}, desc: "loader=css target=firefox65"}, "inset-lowering-splits-value-invalidation"},
